@@ -504,7 +504,15 @@ def r5_decoders(r, facts):
             inits = [loc for loc, t in f.calls() if ((t.get('callee') or '').rsplit('::', 1)[-1] == 'set_init' and (t.get('callee_trait') or '').startswith('io::traits::BufMut'))
                      or (t.get('callee') or '').rsplit('::', 1)[-1] in ('buffer_init', 'new_buffer')]
             # (decoders that hand out a fresh pool buffer have an empty buffer as their legitimate other exit)
-            if inits and any((f.at(l).get('callee') or '').rsplit('::', 1)[-1] == 'set_init' for l in inits):
+            # (which decoders owe it: those that call it, and every decoder of an operation that is generic over a BufMut /
+            # BufMutSlice buffer — deleting the only call must not make the obligation go away; a decoder that only hands its
+            # completion to a sibling decoder passes the obligation on)
+            owes = 'BufMut' in (str(f.j.get('preds')) + str(i.get('preds')) + str(f.j.get('generics')))
+            delegates = any((t.get('resolved') or '') in decoder_paths and (t.get('resolved') or '') != f.path for loc, t in f.calls())
+            if owes and not delegates and not inits:
+                n += 1
+                r.bad('decoder:%s/init-skipped' % i['self'], 'the decoder of an operation that reads into a caller-supplied buffer never tells the buffer how many bytes the kernel wrote (no set_init / buffer_init): the data never becomes part of the buffer', f.where())
+            if (inits and any((f.at(l).get('callee') or '').rsplit('::', 1)[-1] == 'set_init' for l in inits)) or (owes and inits and not delegates):
                 hit = f.forward_paths_hit([Loc(0, 0)], f.returns(), blockers=inits)
                 n += 1
                 r.inst('%s: every path initialises the buffer from the completion' % i['self'], f.where(inits[0]))
